@@ -797,7 +797,7 @@ func transportContractHolds(c *Ctx) (bool, string) {
 			case func() bool {
 				// p = buf[:n]
 				sl, isSl := strip(p).(*ssa.Slice)
-				return isSl && sl.Low == nil && sl.Max == nil && sl.High != nil && (sl.High == n || unspill(sl.High) == n)
+				return isSl && sl.Low == nil && sl.High != nil && (sl.High == n || unspill(sl.High) == n) // also buf[:n:max]: the length is n
 			}():
 				ok = true
 			case func() bool {
